@@ -158,7 +158,7 @@ Proof.
       * split; [exact I|split; [exact L|split; [apply reg_le_refl|left; discriminate]]].
       * apply orb_false_iff in Es as [Es1 Es2]. apply sys_eqb_false in Es1, Es2.
         pose proof (not_stopped_started e I Es1) as S.
-        set (e1 := upd_flags e (started e) (paused e) (holding e) true).
+        set (e1 := stop_begin e).
         assert (A1 : alive e1) by (split; [now apply (Inv_core e)|exact S]).
         pose proof (cancel_all_alive e1 m Stop A1 (or_intror Es2)) as [[I2 S2] N2].
         pose proof (cancel_all_frame e1 m Stop) as [L2 R2].
@@ -174,17 +174,9 @@ Proof.
       * now apply reg_le_eq.
   - (* Pause *)
     unfold unit_ok in U. rewrite En in U. destruct U as [S P0]. rewrite P0, Hd.
-    destruct (apply_safe safe (set_sys (upd_flags e (started e) true (holding e) (stopping e)) Paused)) as [e2 cap] eqn:Ea.
-    pose proof (core_apply_safe safe (set_sys (upd_flags e (started e) true (holding e) (stopping e)) Paused)) as K.
-    rewrite Ea in K. cbn [fst] in K.
-    assert (I1 : Inv (set_sys (upd_flags e (started e) true (holding e) (stopping e)) Paused)).
-    { destruct I as [A B C D F W]. split; cbn; try assumption.
-      - intros S'. congruence.
-      - intros _. now left. }
-    split; [|split; [|split; [|left; discriminate]]].
-    + apply (Inv_core e2); [reflexivity|]. now apply (Inv_core _ _ K).
-    + unfold apply_safe in Ea. destruct (safe_from _ _ _). inversion Ea; subst. exact L.
-    + apply reg_le_eq. cbn. now rewrite (core_reg _ _ K).
+    destruct (pause_begin_facts safe e) as [_ [_ [_ [_ [Q5 [_ [_ [_ [_ [Q10 [Q11 Q12]]]]]]]]]]].
+    split; [now apply Inv_pause_begin|split; [|split; [now apply reg_le_eq|left; discriminate]]].
+    destruct L as [A [B C]]. unfold lists_ok. rewrite Q10, Q11, Q12. auto.
   - (* Unpause *)
     unfold unit_ok in U. rewrite En in U. destruct U as [S _].
     destruct (Inv_unpause e I S) as [J1 [J2 [J3 J4]]].
@@ -192,14 +184,9 @@ Proof.
     apply (lists_ok_eq _ e); [apply lists_unpause|exact L].
   - (* Hold *)
     unfold unit_ok in U. rewrite En in U. destruct U as [S P0]. rewrite P0, Hd.
-    assert (I2 : Inv (if paused e then upd_flags e (started e) (paused e) true (stopping e)
-                      else set_sys (upd_flags e (started e) (paused e) true (stopping e)) Holding)).
-    { destruct I as [A B C D F W]. destruct (paused e) eqn:P; split; cbn; try assumption; try (intros S'; congruence).
-      - intros _. destruct (B S) as [K|K]; [left|right; exact K]. unfold fsys in *. cbn. now rewrite P in *.
-      - intros _. left. unfold fsys. cbn. rewrite ?P. reflexivity. }
-    split; [exact I2|split; [|split; [|left; discriminate]]].
-    + destruct (paused e); exact L.
-    + apply reg_le_eq. destruct (paused e); reflexivity.
+    split; [now apply Inv_hold_begin|split; [|split; [|left; discriminate]]].
+    + unfold hold_begin. destruct (paused e); exact L.
+    + apply reg_le_eq. unfold hold_begin. destruct (paused e); reflexivity.
   - (* Unhold *)
     unfold unit_ok in U. rewrite En in U. destruct U as [S _].
     destruct (Inv_unhold e I S) as [J1 [J2 [J3 J4]]].
@@ -211,7 +198,7 @@ Proof.
       * split; [exact I|split; [exact L|split; [apply reg_le_refl|right; now apply Hr]]].
       * apply orb_false_iff in Es as [Es1 Es2]. apply sys_eqb_false in Es1, Es2.
         pose proof (not_stopped_started e I Es1) as S.
-        set (e1 := upd_flags (set_sys e Restarting) (started e) (paused e) (holding e) true).
+        set (e1 := restart_begin e).
         assert (A1 : alive e1).
         { split; [|exact S]. destruct I as [A B C D F W]. split; cbn; try assumption.
           - intros S'. congruence.
@@ -441,7 +428,7 @@ Proof.
            eapply same_trans; [exact K|]. eapply same_trans; [|exact S02]. eapply same_trans; [|exact S4]. split; reflexivity.
         -- rewrite Hf.
            set (e5 := emit e4 (EUExec n (c_id c) (c_iter c + 1))).
-           set (e6 := match u_out (r_scr r) with Some (o, v) => set_out e5 o (v + (c_iter c + 1)) | None => e5 end).
+           set (e6 := match u_out (r_scr r) with Some (o, v) => set_out_by (r_user r) e5 o (v + (c_iter c + 1)) | None => e5 end).
            assert (S6 : same e6 e4) by (unfold e6, e5; destruct (u_out (r_scr r)) as [[o v]|]; split; reflexivity).
            destruct (Z.of_nat (u_dur (r_scr r)) <=? c_iter c + 1).
            ++ match goal with |- context [mark_done ?a ?b ?c] =>
@@ -468,7 +455,7 @@ Proof.
         rewrite <- T. destruct (r_name r) as [[]|]; try discriminate; apply andb_true_iff in Eu as [Eu _]; exact Eu.
     + rewrite Hf.
       set (e5 := emit e4 (EUExec n (r_id r) (-1 + 1))).
-      set (e6 := match u_out (r_scr r) with Some (o, v) => set_out e5 o (v + (-1 + 1)) | None => e5 end).
+      set (e6 := match u_out (r_scr r) with Some (o, v) => set_out_by (r_user r) e5 o (v + (-1 + 1)) | None => e5 end).
       assert (S6 : same e6 e4) by (unfold e6, e5; destruct (u_out (r_scr r)) as [[o v]|]; split; reflexivity).
       destruct (Z.of_nat (u_dur (r_scr r)) <=? -1 + 1).
       * match goal with |- context [mark_done ?a ?b ?c] =>
@@ -579,7 +566,7 @@ Proof.
   set (e3 := if started e2 then update_clocks e2 (t_dt i) else e2).
   assert (G3 : G e3).
   { unfold e3. destruct (started e2); [|exact G2]. eapply G_same; [|exact G2].
-    split; [apply core_update_clocks|]. unfold update_clocks. destruct (bpaused e2); reflexivity. }
+    split; [apply core_update_clocks|]. unfold update_clocks, advance_clocks. cbv zeta. destruct (bpaused e2 || negb (sys_eqb (sys e2) Running)); reflexivity. }
   pose proof (execute_commands_ok safe overlaps e3 G3) as [G4 R4].
   destruct (execute_commands safe overlaps e3) as [e4 raised]. cbn [fst snd] in *.
   set (e5 := if raised then set_error_state e4 else e4).
@@ -625,8 +612,7 @@ Proof.
     - unfold lists_ok. cbn. repeat split; try constructor; discriminate.
     - intros c []. }
   assert (W1 : wok e1 = true) by (rewrite (core_wok _ _ K); reflexivity).
-  eapply G_same; [|exact G1]. split; [now apply core_write_image|].
-  unfold write_image. destruct (negb (started e1)); [reflexivity|]. rewrite W1. reflexivity.
+  cbv zeta. eapply G_same; [|exact G1]. split; reflexivity.
 Qed.
 
 (* every state reachable by fault-free operations *)
